@@ -21,7 +21,7 @@ func init() {
 		},
 		Rule:        "case = one tree (any config; never persisted / persisted / reloaded / persisted-then-modified / clone; 0..600 entries, heights 0..8; both kinds of empty tree) and ~30 walks on fresh cursors: start at Min, Max or Ceil(probe) with probes present, absent of every layer, below the minimum and above the maximum, then a seeded sequence of Forward/Backward steps compared with index arithmetic on the model's sorted key list after every step, ending when the index leaves [0,n) where Get must report no entry; plus SeekIter(probe) compared with the model's suffix, and with the callback returning ErrIterDone at the j-th call (exactly j calls, nil error); on empty trees every cursor method and SeekIter must return without panic; non-trivial = height >= 2 AND (the walk has both directions OR the probe is absent); distinct by (tree contents, start, step string)",
 		Assumptions: []string{"behaviour after stepping off an end is not judged (the statement does not define it); each walk uses a fresh cursor"},
-		MinObs:      map[string]int64{"walks": 30000, "steps_checked": 100000, "seekiters_checked": 10000, "early_stops_checked": 5000, "empty_tree_cases": 50, "walks_height_ge2": 3000},
+		MinObs:      map[string]int64{"walks": 30000, "steps_checked": 100000, "seekiters_checked": 10000, "early_stops_checked": 5000, "empty_tree_cases": 50, "empty_tree_call_sequences": 300, "walks_height_ge2": 3000},
 		Run:         runC10,
 		EvalObs:     []string{"walks", "seekiters_checked", "early_stops_checked"},
 	})
@@ -106,6 +106,50 @@ func runC10(c *fw.C) {
 			st = "empty"
 		}
 		return map[string]string{"start": start, "state": st}
+	}
+	if N == 0 {
+		// empty trees: ANY sequence of cursor calls must return without panic (a panic is
+		// caught by the framework as C10.no_panic) and Get must keep reporting no entry
+		for w := 0; w < 12; w++ {
+			cur, err := s.T.Cursor(e.Ctx)
+			if err != nil {
+				c.Violation("C10.navigation", ctxOf("cursor"), "Cursor() on an empty tree failed: %v", err)
+				return
+			}
+			calls := ""
+			for i := r.Range(1, 8); i > 0; i-- {
+				var err error
+				switch r.Intn(5) {
+				case 0:
+					calls += "Min "
+					err = cur.Min(e.Ctx)
+				case 1:
+					calls += "Max "
+					err = cur.Max(e.Ctx)
+				case 2:
+					calls += "Ceil "
+					err = cur.Ceil(e.Ctx, pool[r.Intn(len(pool))])
+				case 3:
+					calls += "Forward "
+					err = cur.Forward(e.Ctx)
+				default:
+					calls += "Backward "
+					err = cur.Backward(e.Ctx)
+				}
+				c.Desc("cfg{%s} empty tree (%s), cursor calls: %s", cfg, resid, calls)
+				c.Obs("steps_checked", 1)
+				if err != nil {
+					c.Violation("C10.navigation", ctxOf("empty"), "on an empty tree the cursor calls [%s] returned an error: %v", calls, err)
+					return
+				}
+				if k, _, ok := cur.Get(); ok {
+					c.Violation("C10.navigation", ctxOf("empty"), "on an empty tree, after the cursor calls [%s], Get returns an entry (%v)", calls, k)
+					return
+				}
+			}
+			c.Obs("walks", 1)
+			c.Obs("empty_tree_call_sequences", 1)
+		}
 	}
 	for w := 0; w < 30 && !c.Violated(); w++ {
 		cur, err := s.T.Cursor(e.Ctx)
@@ -222,6 +266,44 @@ func runC10(c *fw.C) {
 		if bad {
 			c.Violation("C10.seek_iteration", sctx, "SeekIter(%v [%s]) yielded %d entries %s; the entries >= probe are %d: %s | cfg{%s} h=%d %s", probe, pk, len(got), shortL(got), len(want), shortL(want), cfg, h, resid)
 			return
+		}
+		if len(want) > 1 && w%5 == 0 {
+			// a range scan started from inside the callback of another one must not disturb it
+			other := s.T
+			if r.Bool() {
+				if cl, err := s.T.Clone(e.Ctx); err == nil {
+					other = &cl
+				}
+			}
+			var outer []interface{}
+			nested := 0
+			err = s.T.SeekIter(e.Ctx, probe, func(k, v interface{}) error {
+				outer = append(outer, k)
+				if len(outer)%3 == 1 {
+					p2, _ := probeOf()
+					inner := 0
+					other.SeekIter(e.Ctx, p2, func(k, v interface{}) error {
+						inner++
+						if inner >= 4 {
+							return mast.ErrIterDone
+						}
+						return nil
+					})
+					nested++
+				}
+				return nil
+			})
+			c.Obs("nested_seekiters", int64(nested))
+			bad := err != nil || len(outer) != len(want)
+			for i := 0; !bad && i < len(outer); i++ {
+				if cfg.KK.Cmp(outer[i], want[i]) != 0 {
+					bad = true
+				}
+			}
+			if bad {
+				c.Violation("C10.seek_iteration", sctx, "SeekIter(%v) whose callback starts other range scans yielded %d entries %s (err=%v); the entries >= probe are %d: %s | cfg{%s} h=%d %s", probe, len(outer), shortL(outer), err, len(want), shortL(want), cfg, h, resid)
+				return
+			}
 		}
 		if len(want) > 0 {
 			j := r.Range(1, len(want))
